@@ -7,169 +7,245 @@ and `Lemmas/BranchLoop.lean` (loops).
 -/
 namespace Pysnark
 
-theorem leafObj_val {env : BEnv} {bv : BV} {e : BExpr} {o : Obj} {v : Val} {s s' : St}
-    (hl : leafObj env bv e = some o) (h : evalE env bv e s = .ok (v, s')) : v = .lc o.v := by
-  cases e <;> simp only [leafObj] at hl <;> try (cases hl)
-  · unfold evalE at h
-    simp only [hl] at h
-    exact (pure_ok' h).1.symm
-  · unfold evalE at h
-    simp only [hl] at h
-    exact (pure_ok' h).1.symm
+/-- `_.x = <value>` binds `x` to a value that stands for the native value -/
+theorem bindT_ref {r : Nat} {x : Nat} {t : TVal} {n : Nat} {bs bs' : BSt} {s s' : St} {E : NEnv} {v : NVal}
+    (hr : RefV r bs.bv.vals E) (hd : denN r v = denT r t) (hb : t.bok = true)
+    (h : bindT x t n bs s = .ok (bs', s')) : s' = s ∧ RefV r bs'.bv.vals (E.set x v) := by
+  obtain ⟨_, rfl, rfl⟩ := bindT_ok h
+  exact ⟨rfl, hr.set x hd hb⟩
 
-theorem bindNew_ok {x : Nat} {v : Val} {bs bs' : BSt} {s s' : St} (h : bindNew x v bs s = .ok (bs', s')) :
-    ∃ l, v = .lc l ∧ s' = s ∧
-      bs' = { bs with bv := { vals := bs.bv.vals.set x ⟨l, bs.bv.next⟩, next := bs.bv.next + 1 } } := by
-  unfold bindNew at h
-  cases v <;> first | exact (raise_ok.mp h).elim | skip
-  obtain ⟨rfl, rfl⟩ := pure_ok' h
-  exact ⟨_, rfl, rfl, rfl⟩
-
-/-- `_.x = e` binds `x` to an object whose value is the value of `e` -/
-theorem bindVar_ref {env : BEnv} {x : Nat} {e : BExpr} {v : Val} {bs bs' : BSt} {s0 s1 s s' : St} {E : NEnv}
-    (he : evalE env bs.bv e s0 = .ok (v, s1)) (hv : IsIntV v) (hr : RefV bs.bv.vals E)
-    (h : bindVar env x e v bs s = .ok (bs', s')) :
-    s' = s ∧ RefV bs'.bv.vals (E.set x (ival v)) := by
-  unfold bindVar at h
-  cases hl : leafObj env bs.bv e with
-  | some o =>
-    simp only [hl] at h
-    obtain ⟨rfl, rfl⟩ := pure_ok' h
-    have := leafObj_val hl he
-    subst this
-    exact ⟨rfl, hr.set x o⟩
-  | none =>
-    simp only [hl] at h
-    obtain ⟨l, rfl, rfl, rfl⟩ := bindNew_ok h
-    exact ⟨rfl, hr.set x ⟨l, bs.bv.next⟩⟩
-
-theorem guardedM_live {α : Type} {c : LinComb} {m : M α} {a : α} {s s' : St} (hl : Live s)
+theorem guardedM_live {α : Type} {r : Nat} {c : LinComb} {m : M α} {a : α} {s s' : St} (hl : Live r s)
+    (hm : ∀ t b t', m t = .ok (b, t') → t'.resolution = t.resolution)
     (h : guardedM c m s = .ok (a, s')) :
-    Live s' ∧ ∃ s1 s2, m s1 = .ok (a, s2) := by
+    Live r s' ∧ BoolLC c ∧ ∃ s1 s2, m s1 = .ok (a, s2) ∧ (c.value = 1 → Live r s1) := by
   unfold guardedM at h
   obtain ⟨bak, s1, h1, h⟩ := bind_ok.mp h
   obtain ⟨a', s2, h2, h⟩ := bind_ok.mp h
   obtain ⟨u, s3, h3, h⟩ := bind_ok.mp h
   obtain ⟨rfl, rfl⟩ := pure_ok' h
-  obtain ⟨rfl, _⟩ := addGuard_live hl h1
-  exact ⟨Live.of_restore hl.triple h3, s1, s2, h2⟩
+  obtain ⟨rfl, hcb, hl1⟩ := addGuard_live hl h1
+  have hres : s2.resolution = r := by rw [hm _ _ _ h2, addGuard_res h1]; exact hl.res
+  exact ⟨Live.of_restore hl.triple hres h3, hcb, s1, s2, h2, hl1⟩
 
-/-- `if_then_else(c, lambda: t, lambda: f)` under a true guard -/
-theorem iteThunks_live {env : BEnv} {nc : NCtx} {bv : BV} {E : NEnv} (hi : RefI env nc) (hv : RefV bv.vals E)
-    {c : LinComb} {t f : BExpr} {r : Val} {s s' : St} (hl : Live s) (hc : c.value = 0 ∨ c.value = 1)
-    (h : iteThunks c (evalE env bv t) (evalE env bv f) s = .ok (r, s')) :
-    Live s' ∧ IsIntV r ∧ ∃ kt kf, nEvalE nc E t = .ok kt ∧ nEvalE nc E f = .ok kf ∧
-      ival r = if c.value = 1 then kt else kf := by
+/-- `if_then_else` on two evaluated branches without the identity test at the top -/
+theorem iteVals_val {r : Nat} {c : LinComb} (hc : BoolLC c) {tv fv o : TVal} {n n' : Nat} {s s' : St}
+    (hr : s.resolution = r) (h : iteVals c tv fv n s = .ok ((o, n'), s')) :
+    Same s s' ∧ denT r o = dsel c.value (denT r tv) (denT r fv) ∧ ((tv.bok = true ∨ fv.bok = true) → o.bok = true) := by
+  have hsame := iteVals_same h
+  unfold iteVals at h
+  split at h
+  · rename_i a b
+    obtain ⟨v, s1, h1, h⟩ := bind_ok.mp h
+    obtain ⟨⟨w, n1⟩, s2, h2, h⟩ := bind_ok.mp h
+    obtain ⟨h3, rfl⟩ := pure_ok' h
+    simp only [Prod.mk.injEq] at h3
+    obtain ⟨rfl, _⟩ := h3
+    obtain ⟨ho, _, rfl⟩ := freshS_ok h2
+    obtain ⟨_, _, hk, vr⟩ := iteScalar_rep a.toVal_isS b.toVal_isS h1
+    refine ⟨hsame, ?_, fun _ => ?_⟩
+    · rw [denT_leaf, denT_leaf, denT_leaf, SVal.ofVal_den ho, ← hr, vr, SVal.den_eq_rep, SVal.den_eq_rep]
+      unfold dsel
+      rcases hc with h0 | h1
+      · simp [h0]
+      · simp [h1]
+    · rw [TVal.bok_leaf]
+      exact SVal.bok_of_not_lcb (fun l hl' => hk l (by rw [← SVal.ofVal_toVal ho]; exact hl'))
+  · obtain ⟨hd, hb⟩ := mergeT_val hc hr h
+    exact ⟨hsame, hd, hb⟩
+
+/-- `if_then_else(c, lambda: t, lambda: f)` under a true guard: the branch that the condition
+selects has been evaluated under a true guard, the other one does not matter -/
+theorem iteThunks_live {r : Nat} {env : BEnv} {nc : NCtx} {vals : Vals} {E : NEnv} (hi : RefI r env nc) (hv : RefV r vals E)
+    {c : LinComb} {t f : BExpr} {n n' : Nat} {o : TVal} {s s' : St} (hl : Live r s)
+    (h : iteThunks c (evalE env vals t) (evalE env vals f) n s = .ok ((o, n'), s')) :
+    Live r s' ∧ BoolLC c ∧ o.bok = true ∧
+      (c.value = 1 → ∃ v, nEvalE nc E t = .ok v ∧ denN r v = denT r o) ∧
+      (c.value = 0 → ∃ v, nEvalE nc E f = .ok v ∧ denN r v = denT r o) := by
   unfold iteThunks at h
-  obtain ⟨tv, s1, h1, h⟩ := bind_ok.mp h
+  obtain ⟨⟨tv, n1⟩, s1, h1, h⟩ := bind_ok.mp h
   obtain ⟨ncv, s2, h2, h⟩ := bind_ok.mp h
-  obtain ⟨fv, s3, h3, h⟩ := bind_ok.mp h
-  obtain ⟨d, s4, h4, h⟩ := bind_ok.mp h
-  obtain ⟨pr, s5, h5, h⟩ := bind_ok.mp h
-  obtain ⟨l1, t1, t2, ht⟩ := guardedM_live hl h1
-  obtain ⟨_, kt, nt⟩ := evalE_val hi hv t ht
-  obtain ⟨sm2, _, _⟩ := boolNot_val h2
-  obtain ⟨l3, u1, u2, hf⟩ := guardedM_live (l1.same sm2) h3
-  obtain ⟨_, kf, nf⟩ := evalE_val hi hv f hf
-  obtain ⟨rfl, kd, vd⟩ := subV_int_val kt kf h4
-  obtain ⟨sm5, z, rfl, vz⟩ := mulLV_int_val kd h5
-  obtain ⟨rfl, kr, vr⟩ := addV_int_val kf (by trivial : IsIntV (.lc z)) h
-  refine ⟨l3.same sm5, kr, ival tv, ival fv, nt, nf, ?_⟩
-  rw [vr, show ival (Val.lc z) = z.value from rfl, vz, vd]
-  rcases hc with h0 | h1
-  · rw [h0]; simp
-  · rw [h1]; simp
+  obtain ⟨⟨fv, n2⟩, s3, h3, h⟩ := bind_ok.mp h
+  obtain ⟨l1, hcb, t1, t2, ht, hlt⟩ := guardedM_live hl (fun _ _ _ hh => (evalE_same t hh).res) h1
+  obtain ⟨sm2, v2, _⟩ := boolNot_val h2
+  obtain ⟨l3, _, u1, u2, hf, hlf⟩ := guardedM_live (l1.same sm2) (fun _ _ _ hh => (evalE_same f hh).res) h3
+  obtain ⟨sm4, hd, hb⟩ := iteVals_val hcb l3.res h
+  have key1 : c.value = 1 → tv.bok = true ∧ ∃ v, nEvalE nc E t = .ok v ∧ denN r v = denT r tv := by
+    intro hc1
+    obtain ⟨_, b, v, nv, dv⟩ := evalE_val hi hv t (hlt hc1) ht
+    exact ⟨b, v, nv, dv⟩
+  have key0 : c.value = 0 → fv.bok = true ∧ ∃ v, nEvalE nc E f = .ok v ∧ denN r v = denT r fv := by
+    intro hc0
+    obtain ⟨_, b, v, nv, dv⟩ := evalE_val hi hv f (hlf (by rw [v2, hc0]; rfl)) hf
+    exact ⟨b, v, nv, dv⟩
+  refine ⟨l3.same sm4, hcb, ?_, ?_, ?_⟩
+  · rcases hcb with h0 | h1
+    · exact hb (Or.inr (key0 h0).1)
+    · exact hb (Or.inl (key1 h1).1)
+  · intro hc1
+    obtain ⟨_, v, nv, dv⟩ := key1 hc1
+    exact ⟨v, nv, by rw [hd, dv]; simp [dsel, hc1]⟩
+  · intro hc0
+    obtain ⟨_, v, nv, dv⟩ := key0 hc0
+    exact ⟨v, nv, by rw [hd, dv]; simp [dsel, hc0]⟩
 
-theorem RefI.push {env : BEnv} {nc : NCtx} (hi : RefI env nc) (lv : Nat) (k : Int) :
-    RefI { env with lvs := (lv, k) :: env.lvs } { nc with lvs := (lv, k) :: nc.lvs } :=
-  ⟨by simp only [hi.lvs], hi.inputs⟩
+theorem RefI.push {r : Nat} {env : BEnv} {nc : NCtx} (hi : RefI r env nc) (lv : Nat) (k : Int) :
+    RefI r { env with lvs := (lv, k) :: env.lvs } { nc with lvs := (lv, k) :: nc.lvs } :=
+  ⟨hi.res, by simp only [hi.lvs], hi.inputs, hi.finputs, hi.ibok, hi.fbok⟩
+
+/-- element assignment on both sides -/
+theorem set_ref {r : Nat} {old new t : TVal} {old' v : NVal} {path : List Nat} (ho : denN r old' = denT r old)
+    (hv : denN r v = denT r t) (h : old.set path t = some new) :
+    ∃ new', old'.set path v = some new' ∧ denN r new' = denT r new := by
+  have h1 := PTree.map_set (SVal.den r) path old t
+  have h2 := PTree.map_set (NLeaf.norm r) path old' v
+  rw [h] at h1
+  have ho' : PTree.map (NLeaf.norm r) old' = PTree.map (SVal.den r) old := ho
+  have hv' : PTree.map (NLeaf.norm r) v = PTree.map (SVal.den r) t := hv
+  rw [ho', hv', ← h1] at h2
+  cases hs : old'.set path v with
+  | none => rw [hs] at h2; cases h2
+  | some new' =>
+    rw [hs] at h2
+    simp only [Option.map_some, Option.some.injEq] at h2
+    exact ⟨new', rfl, h2⟩
 
 mutual
-theorem execStmt_ref : ∀ (st : BStmt) (env : BEnv) (nc : NCtx) (bs bs' : BSt) (s s' : St) (E : NEnv),
-    RefI env nc → Live s → RefV bs.bv.vals E → execStmt env st bs s = .ok (bs', s') →
-    Post (nStmt nc st E) bs'.bv.vals s'
+theorem execStmt_ref {r : Nat} : ∀ (st : BStmt) (env : BEnv) (nc : NCtx) (bs bs' : BSt) (s s' : St) (E : NEnv),
+    RefI r env nc → Live r s → RefV r bs.bv.vals E → execStmt env st bs s = .ok (bs', s') →
+    Post r (nStmt nc st E) bs'.bv.vals s'
   | .assign x e, env, nc, bs, bs', s, s', E, hi, hl, hr, h => by
     unfold execStmt at h
-    obtain ⟨v, s1, h1, h2⟩ := bind_ok.mp h
-    obtain ⟨sm, kv, nv⟩ := evalE_val hi hr e h1
-    obtain ⟨rfl, hr'⟩ := bindVar_ref h1 kv hr h2
+    obtain ⟨⟨t, n⟩, s1, h1, h2⟩ := bind_ok.mp h
+    obtain ⟨sm, hb, v, nv, dv⟩ := evalE_val hi hr e hl h1
+    obtain ⟨rfl, hr'⟩ := bindT_ref hr dv hb h2
     simp only [nStmt, nv]
     exact ⟨hl.same sm, hr'⟩
-  | .ite x c t f, env, nc, bs, bs', s, s', E, hi, hl, hr, h => by
+  | .setitem x path e, env, nc, bs, bs', s, s', E, hi, hl, hr, h => by
     unfold execStmt at h
-    obtain ⟨cv, s1, h1, ha⟩ := bind_ok.mp h
-    obtain ⟨cl, s2, h2, hb⟩ := bind_ok.mp ha
-    obtain ⟨r, s3, h3, h4⟩ := bind_ok.mp hb
-    clear h ha hb
-    obtain ⟨sm1, b, rc, hnat, hcv, vrc⟩ := evalC_live hi hr hl h1
-    subst hcv
-    obtain ⟨hcl, rfl⟩ := condLC_ok h2
-    cases hcl
-    obtain ⟨l3, kr, kt, kf, nt, nf, vr⟩ := iteThunks_live hi hr (hl.same sm1) (by cases b <;> simp [vrc]) h3
-    obtain ⟨l, rfl, rfl, rfl⟩ := bindNew_ok h4
-    simp only [nStmt, hnat]
+    obtain ⟨⟨t, n⟩, s1, h1, h2⟩ := bind_ok.mp h
+    obtain ⟨sm, hb, v, nv, dv⟩ := evalE_val hi hr e hl h1
+    dsimp only at h2
+    cases hg : bs.bv.vals.get? x with
+    | none => simp only [hg] at h2; exact (raise_ok.mp h2).elim
+    | some old =>
+      simp only [hg] at h2
+      cases hs : old.set path t with
+      | none => simp only [hs] at h2; exact (raise_ok.mp h2).elim
+      | some new =>
+        simp only [hs] at h2
+        have hx := hr.eq x
+        unfold Vals.valOf NEnv.valOf at hx
+        rw [hg] at hx
+        cases hE : E.get? x with
+        | none => rw [hE] at hx; cases hx
+        | some old' =>
+          rw [hE] at hx
+          simp only [Option.map_some, Option.some.injEq] at hx
+          obtain ⟨new', hs', dn⟩ := set_ref hx.symm dv hs
+          have hbn : TVal.bok new = true := PTree.all_of_set path hs (hr.bok.get? hg) hb
+          obtain ⟨rfl, hr'⟩ := bindT_ref hr dn hbn h2
+          simp only [nStmt, nv, ok_bind, hE, nGet, hs']
+          exact ⟨hl.same sm, hr'⟩
+  | .sel x c t f, env, nc, bs, bs', s, s', E, hi, hl, hr, h => by
+    unfold execStmt at h
+    obind h with cv, s1, h1
+    obind h with ⟨tv, n1⟩, s2, h2
+    obind h with ⟨fv, n2⟩, s3, h3
+    obind h with cl, s4, h4
+    obtain ⟨hcl, hs4⟩ := condLC_ok h4
+    subst hs4
+    obind h with ⟨o, n3⟩, s5, h5
+    obtain ⟨sm1, b, hnat, hvr⟩ := evalC_live hi hr hl h1
+    have vrc := hvr cl hcl
+    obtain ⟨sm2, bt, vt, nt, dt⟩ := evalE_val hi hr t (hl.same sm1) h2
+    obtain ⟨sm3, bf, vf, nf, df⟩ := evalE_val hi hr f ((hl.same sm1).same sm2) h3
+    have hl3 := ((hl.same sm1).same sm2).same sm3
+    have hcb : BoolLC cl := by unfold BoolLC; rw [vrc]; cases b <;> simp
+    obtain ⟨hd, hb⟩ := mergeT_val hcb hl3.res h5
+    have sm5 := mergeT_same h5
+    simp only [nStmt, hnat, ok_bind]
     cases b with
     | true =>
-      simp only [vrc, if_true] at vr
-      show Post (do let v ← nEvalE nc E t; pure (E.set x v)) _ _
+      simp only [if_true] at vrc ⊢
       rw [nt]
-      exact ⟨l3, by have := hr.set x ⟨l, bs.bv.next⟩; simpa [ival, ← vr] using this⟩
+      obtain ⟨rfl, hr'⟩ := bindT_ref (v := vt) hr (by rw [hd, dt]; simp [dsel, vrc]) (hb (Or.inl bt)) h
+      exact ⟨hl3.same sm5, hr'⟩
     | false =>
-      simp only [vrc, Bool.false_eq_true, if_false] at vr
-      show Post (do let v ← nEvalE nc E f; pure (E.set x v)) _ _
+      simp only [Bool.false_eq_true, if_false] at vrc ⊢
       rw [nf]
-      have h01 : ¬ ((0 : Int) = 1) := by decide
-      simp only [h01, if_false] at vr
-      exact ⟨l3, by have := hr.set x ⟨l, bs.bv.next⟩; simpa [ival, ← vr] using this⟩
+      obtain ⟨rfl, hr'⟩ := bindT_ref (v := vf) hr (by rw [hd, df]; simp [dsel, vrc]) (hb (Or.inr bf)) h
+      exact ⟨hl3.same sm5, hr'⟩
+  | .ite x c t f, env, nc, bs, bs', s, s', E, hi, hl, hr, h => by
+    unfold execStmt at h
+    obind h with cv, s1, h1
+    obind h with cl, s2, h2
+    obtain ⟨hcl, hs2⟩ := condLC_ok h2
+    subst hs2
+    obind h with ⟨o, n3⟩, s3, h3
+    obtain ⟨sm1, b, hnat, hvr⟩ := evalC_live hi hr hl h1
+    have vrc := hvr cl hcl
+    obtain ⟨l3, _, hbo, k1, k0⟩ := iteThunks_live hi hr (hl.same sm1) h3
+    simp only [nStmt, hnat, ok_bind]
+    cases b with
+    | true =>
+      simp only [if_true] at vrc ⊢
+      obtain ⟨v, nv, dv⟩ := k1 vrc
+      rw [nv]
+      obtain ⟨rfl, hr'⟩ := bindT_ref hr dv hbo h
+      exact ⟨l3, hr'⟩
+    | false =>
+      simp only [Bool.false_eq_true, if_false] at vrc ⊢
+      obtain ⟨v, nv, dv⟩ := k0 vrc
+      rw [nv]
+      obtain ⟨rfl, hr'⟩ := bindT_ref hr dv hbo h
+      exact ⟨l3, hr'⟩
   | .ifs c body rest, env, nc, bs, bs', s, s', E, hi, hl, hr, h => by
     unfold execStmt at h
     obtain ⟨cv, s1, h1, ha⟩ := bind_ok.mp h
     obtain ⟨bs1, s2, h2, hb⟩ := bind_ok.mp ha
     obtain ⟨bs2, s3, h3, h4⟩ := bind_ok.mp hb
     clear h ha hb
-    obtain ⟨sm1, b, rc, hnat, hcv, vrc⟩ := evalC_live hi hr hl h1
-    subst hcv
+    obtain ⟨sm1, b, hnat, hvr⟩ := evalC_live hi hr hl h1
     obtain ⟨c', ctx, hc', hnew, hbs1⟩ := bIf_ok h2
-    cases hc'
-    obtain ⟨cif, cog, cbak, ccond, cnd, ⟨ic, hic, vic⟩, clive⟩ := ifNew_live (hl.same sm1) hnew
-    obtain ⟨hst, hdom⟩ := execBlock_struct body env bs1 bs2 s2 s3 h3
+    have vrc := hvr c' hc'
+    obtain ⟨cif, cog, cbak, ccond, cnd, ⟨ic, hic, vic⟩, clive, _, cres⟩ := ifNew_live (hl.same sm1) hnew
+    obtain ⟨⟨hst, hdom⟩, hres3⟩ := execBlock_struct body env bs1 bs2 s2 s3 h3
     have hstk : bs2.stack = ctx :: bs.stack := by rw [hst, hbs1]
     have hbv1 : bs1.bv = bs.bv := by rw [hbs1]
-    simp only [nStmt, hnat]
+    simp only [nStmt, hnat, ok_bind]
     cases b with
     | true =>
       simp only [if_true] at vrc
       have hcv1 : ctx.cond.value = 1 := by rw [ccond]; exact vrc
       have hbody := execBlock_ref body env nc bs1 bs2 s2 s3 E hi (clive vrc) (hbv1 ▸ hr) h3
-      show Post (nBlock nc body E) _ _
+      show Post r (nBlock nc body E) _ _
       cases hN : nBlock nc body E with
       | error x =>
         rw [hN] at hbody
-        cases x with
-        | name => exact hbody.elim
-        | uncapped => trivial
+        exact hbody
       | ok ET =>
         rw [hN] at hbody
-        have hp : PendT ET ctx bs2.bv.vals :=
+        have hp : PendT r ET ctx bs2.bv.vals :=
           ⟨cif, cog, Or.inr ⟨ic, hic, by rw [vic, vrc]; rfl⟩, Or.inl ⟨hcv1, hbody.2⟩⟩
-        obtain ⟨x, y⟩ := execIfRest_taken rest env nc bs2 bs' s3 s' ET ctx bs.stack hi hstk hp h4
+        obtain ⟨x, y⟩ := execIfRest_taken rest env nc bs2 bs' s3 s' ET ctx bs.stack hi hstk hp hbody.1.res h4
         exact ⟨x, y⟩
     | false =>
       simp only [Bool.false_eq_true, if_false] at vrc
-      have hp : PendO E ctx bs2.bv.vals :=
-        ⟨cif, cog, ⟨ic, hic, by rw [vic, vrc]; rfl⟩, by rw [ccond]; exact vrc, by rw [cbak]; exact hr,
-          fun x hx => hdom x (by rw [hbv1]; rw [cbak] at hx; exact hx), fun nd0 h0 => by rw [cnd] at h0; cases h0⟩
-      exact execIfRest_open rest env nc bs2 bs' s3 s' E ctx bs.stack hi hstk hp h4
+      have hp : PendO r E ctx bs2.bv.vals :=
+        ⟨cif, cog, ⟨ic, hic, by rw [vic, vrc]; rfl⟩, by rw [ccond]; exact vrc, by rw [cbak]; exact hr.backup,
+          fun x hx => hdom x (by rw [hbv1]; rw [cbak, Vals.has_backup] at hx; exact hx),
+          fun nd0 h0 => by rw [cnd] at h0; cases h0⟩
+      exact execIfRest_open rest env nc bs2 bs' s3 s' E ctx bs.stack hi hstk hp (hres3.trans cres) h4
   | .forr lv bound mx body, env, nc, bs, bs', s, s', E, hi, hl, hr, h => by
     unfold execStmt at h
     obtain ⟨stop, s1, h1, ha⟩ := bind_ok.mp h
     clear h
-    obtain ⟨sm, kv, nv⟩ := evalE_val hi hr bound h1
     cases stop <;> first | exact (raise_ok.mp ha).elim | skip
     rename_i st
     dsimp only at ha
-    simp only [nStmt, nv, ival]
-    show Post (if 0 ≤ st.value ∧ st.value ≤ (mx : Int) then _ else _) _ _
+    obtain ⟨sm, w, nw, hbd⟩ := evalC_bound hi hr hl h1
+    simp only [nStmt, nw, ok_bind, hbd]
+    show Post r (if 0 ≤ st.value ∧ st.value ≤ (mx : Int) then _ else _) _ _
     by_cases hcap : 0 ≤ st.value ∧ st.value ≤ (mx : Int)
     · rw [if_pos hcap]
       refine for_stmt (env := env) (lv := lv) (st := st) (mx := mx)
@@ -190,9 +266,9 @@ theorem execStmt_ref : ∀ (st : BStmt) (env : BEnv) (nc : NCtx) (bs bs' : BSt) 
       ⟨fun b t b' t' E' hl' hr' hh => execBlock_ref body env nc b b' t t' E' hi hl' hr' hh,
         fun b t b' t' hh => execBlock_struct body env b b' t t' hh⟩ hl hr h
 
-theorem execBlock_ref : ∀ (b : BBlock) (env : BEnv) (nc : NCtx) (bs bs' : BSt) (s s' : St) (E : NEnv),
-    RefI env nc → Live s → RefV bs.bv.vals E → execBlock env b bs s = .ok (bs', s') →
-    Post (nBlock nc b E) bs'.bv.vals s'
+theorem execBlock_ref {r : Nat} : ∀ (b : BBlock) (env : BEnv) (nc : NCtx) (bs bs' : BSt) (s s' : St) (E : NEnv),
+    RefI r env nc → Live r s → RefV r bs.bv.vals E → execBlock env b bs s = .ok (bs', s') →
+    Post r (nBlock nc b E) bs'.bv.vals s'
   | .nil, env, nc, bs, bs', s, s', E, hi, hl, hr, h => by
     unfold execBlock at h
     obtain ⟨rfl, rfl⟩ := pure_ok' h
@@ -205,139 +281,110 @@ theorem execBlock_ref : ∀ (b : BBlock) (env : BEnv) (nc : NCtx) (bs bs' : BSt)
     cases hN : nStmt nc st E with
     | error x =>
       rw [hN] at hs
-      cases x with
-      | name => exact hs.elim
-      | uncapped => trivial
+      exact hs
     | ok E1 =>
       rw [hN] at hs
       exact execBlock_ref rest env nc bs1 bs' s1 s' E1 hi hs.1 hs.2 h2
 
-theorem execIfRest_taken : ∀ (rest : BIfRest) (env : BEnv) (nc : NCtx) (bs bs' : BSt) (s s' : St) (ET : NEnv)
-    (ctx : BCtx) (stk : List BCtx), RefI env nc → bs.stack = ctx :: stk → PendT ET ctx bs.bv.vals →
-    execIfRest env rest bs s = .ok (bs', s') → Live s' ∧ RefV bs'.bv.vals ET
-  | .endif, env, nc, bs, bs', s, s', ET, ctx, stk, hi, hs, hp, h => by
+theorem execIfRest_taken {r : Nat} : ∀ (rest : BIfRest) (env : BEnv) (nc : NCtx) (bs bs' : BSt) (s s' : St) (ET : NEnv)
+    (ctx : BCtx) (stk : List BCtx), RefI r env nc → bs.stack = ctx :: stk → PendT r ET ctx bs.bv.vals →
+    s.resolution = r → execIfRest env rest bs s = .ok (bs', s') → Live r s' ∧ RefV r bs'.bv.vals ET
+  | .endif, env, nc, bs, bs', s, s', ET, ctx, stk, hi, hs, hp, hres, h => by
     unfold execIfRest at h
     obtain ⟨ctx0, rest0, bv', hs0, rfl, hcase⟩ := bEnd_ok (Or.inl h)
     rw [hs] at hs0; cases hs0
     rcases hcase with ⟨_, he⟩ | ⟨hf, _⟩
-    · exact ifEnd_pendT hp he
+    · exact ifEnd_pendT hp hres he
     · rw [hp.isIf] at hf; cases hf
-  | .els b, env, nc, bs, bs', s, s', ET, ctx, stk, hi, hs, hp, h => by
+  | .els b, env, nc, bs, bs', s, s', ET, ctx, stk, hi, hs, hp, hres, h => by
     unfold execIfRest at h
     obtain ⟨bs1, s1, h1, ha⟩ := bind_ok.mp h
     obtain ⟨bs2, s2, h2, h3⟩ := bind_ok.mp ha
     clear h ha
     obtain ⟨ctx0, rest0, ctx', bv', hs0, _, he, rfl⟩ := bElse_ok h1
     rw [hs] at hs0; cases hs0
-    have hp1 := ifElse_betT hp he
-    obtain ⟨hst, hdom⟩ := execBlock_struct b env _ bs2 s1 s2 h2
-    have hc0 : ctx'.cond.value = 0 := by
-      rcases hp1.seg with ⟨h1', _⟩ | ⟨h0, _⟩
-      · obtain ⟨_, _, ic, _, _, hic, hen, rfl⟩ := ifElse_ok he
-        exact absurd h1' (by
-          obtain ⟨_, hb⟩ := exit_pendT hp (by assumption)
-          obtain ⟨og, _, rfl⟩ := enter_ok hen
-          rcases hb.ic with hn | ⟨ic', hi1, hi0⟩
-          · rw [hic] at hn; cases hn
-          · rw [hic] at hi1; cases hi1; simp [hi0])
-      · exact h0
-    have hp2 : PendT ET ctx' bs2.bv.vals := hp1.mono hc0 hdom
+    obtain ⟨hp1, hc0, hres1⟩ := ifElse_betT hp hres he
+    obtain ⟨⟨hst, hdom⟩, hres2⟩ := execBlock_struct b env _ bs2 s1 s2 h2
+    have hp2 : PendT r ET ctx' bs2.bv.vals := hp1.mono hc0 hdom
     obtain ⟨ctx1, rest1, bv1, hs1, rfl, hcase⟩ := bEnd_ok (Or.inl h3)
     rw [hst] at hs1; cases hs1
     rcases hcase with ⟨_, he'⟩ | ⟨hf, _⟩
-    · exact ifEnd_pendT hp2 he'
+    · exact ifEnd_pendT hp2 (hres2.trans hres1) he'
     · rw [hp2.isIf] at hf; cases hf
-  | .elif c b rest, env, nc, bs, bs', s, s', ET, ctx, stk, hi, hs, hp, h => by
+  | .elif c b rest, env, nc, bs, bs', s, s', ET, ctx, stk, hi, hs, hp, hres, h => by
     unfold execIfRest at h
     obtain ⟨bs1, s1, h1, ha⟩ := bind_ok.mp h
     obtain ⟨bs2, s2, h2, h3⟩ := bind_ok.mp ha
     clear h ha
     obtain ⟨ctx0, rest0, ctx', bv', hs0, _, he, rfl⟩ := bElif_ok h1
     rw [hs] at hs0; cases hs0
-    have hp1 := ifElif_betT hi hp he
-    obtain ⟨hst, hdom⟩ := execBlock_struct b env _ bs2 s1 s2 h2
-    have hc0 : ctx'.cond.value = 0 := by
-      rcases hp1.seg with ⟨h1', _⟩ | ⟨h0, _⟩
-      · obtain ⟨ctx1, t1, nw, t2, ic, nn, t3, nwic, t4, cc, t5, ctx2, hx, _, hic, _, _, hcc, hen, rfl⟩ := ifElif_ok he
-        obtain ⟨_, hb⟩ := exit_pendT hp hx
-        obtain ⟨og, _, rfl⟩ := enter_ok hen
-        obtain ⟨_, v5, _⟩ := andBB_val hcc
-        rcases hb.ic with hn | ⟨ic', hi1, hi0⟩
-        · rw [hic] at hn; cases hn
-        · rw [hic] at hi1; cases hi1
-          have : cc.value = 0 := by rw [v5, hi0]; ring
-          simp only at h1'
-          rw [this] at h1'; cases h1'
-      · exact h0
-    have hp2 : PendT ET ctx' bs2.bv.vals := hp1.mono hc0 hdom
-    exact execIfRest_taken rest env nc bs2 bs' s2 s' ET ctx' stk hi hst hp2 h3
+    obtain ⟨hp1, hc0, hres1⟩ := ifElif_betT hp hres he
+    obtain ⟨⟨hst, hdom⟩, hres2⟩ := execBlock_struct b env _ bs2 s1 s2 h2
+    have hp2 : PendT r ET ctx' bs2.bv.vals := hp1.mono hc0 hdom
+    exact execIfRest_taken rest env nc bs2 bs' s2 s' ET ctx' stk hi hst hp2 (hres2.trans hres1) h3
 
-theorem execIfRest_open : ∀ (rest : BIfRest) (env : BEnv) (nc : NCtx) (bs bs' : BSt) (s s' : St) (E0 : NEnv)
-    (ctx : BCtx) (stk : List BCtx), RefI env nc → bs.stack = ctx :: stk → PendO E0 ctx bs.bv.vals →
-    execIfRest env rest bs s = .ok (bs', s') → Post (nIfRest nc rest E0) bs'.bv.vals s'
-  | .endif, env, nc, bs, bs', s, s', E0, ctx, stk, hi, hs, hp, h => by
+theorem execIfRest_open {r : Nat} : ∀ (rest : BIfRest) (env : BEnv) (nc : NCtx) (bs bs' : BSt) (s s' : St) (E0 : NEnv)
+    (ctx : BCtx) (stk : List BCtx), RefI r env nc → bs.stack = ctx :: stk → PendO r E0 ctx bs.bv.vals →
+    s.resolution = r → execIfRest env rest bs s = .ok (bs', s') → Post r (nIfRest nc rest E0) bs'.bv.vals s'
+  | .endif, env, nc, bs, bs', s, s', E0, ctx, stk, hi, hs, hp, hres, h => by
     unfold execIfRest at h
     obtain ⟨ctx0, rest0, bv', hs0, rfl, hcase⟩ := bEnd_ok (Or.inl h)
     rw [hs] at hs0; cases hs0
     rcases hcase with ⟨_, he⟩ | ⟨hf, _⟩
-    · obtain ⟨x, y⟩ := ifEnd_pendO hp he
+    · obtain ⟨x, y⟩ := ifEnd_pendO hp hres he
       exact ⟨x, y⟩
     · rw [hp.isIf] at hf; cases hf
-  | .els b, env, nc, bs, bs', s, s', E0, ctx, stk, hi, hs, hp, h => by
+  | .els b, env, nc, bs, bs', s, s', E0, ctx, stk, hi, hs, hp, hres, h => by
     unfold execIfRest at h
     obtain ⟨bs1, s1, h1, ha⟩ := bind_ok.mp h
     obtain ⟨bs2, s2, h2, h3⟩ := bind_ok.mp ha
     clear h ha
     obtain ⟨ctx0, rest0, ctx', bv', hs0, _, he, rfl⟩ := bElse_ok h1
     rw [hs] at hs0; cases hs0
-    obtain ⟨hl1, hr1, cif, cog, cic, ccv⟩ := ifElse_betO hp he
-    obtain ⟨hst, _⟩ := execBlock_struct b env _ bs2 s1 s2 h2
+    obtain ⟨hl1, hr1, cif, cog, cic, ccv⟩ := ifElse_betO hp hres he
+    obtain ⟨⟨hst, _⟩, _⟩ := execBlock_struct b env _ bs2 s1 s2 h2
     have hbody := execBlock_ref b env nc _ bs2 s1 s2 E0 hi hl1 hr1 h2
     simp only [nIfRest]
     cases hN : nBlock nc b E0 with
     | error x =>
       rw [hN] at hbody
-      cases x with
-      | name => exact hbody.elim
-      | uncapped => trivial
+      exact hbody
     | ok ET =>
       rw [hN] at hbody
-      have hp2 : PendT ET ctx' bs2.bv.vals := ⟨cif, cog, Or.inl cic, Or.inl ⟨ccv, hbody.2⟩⟩
+      have hp2 : PendT r ET ctx' bs2.bv.vals := ⟨cif, cog, Or.inl cic, Or.inl ⟨ccv, hbody.2⟩⟩
       obtain ⟨ctx1, rest1, bv1, hs1, rfl, hcase⟩ := bEnd_ok (Or.inl h3)
       rw [hst] at hs1; cases hs1
       rcases hcase with ⟨_, he'⟩ | ⟨hf, _⟩
-      · obtain ⟨x, y⟩ := ifEnd_pendT hp2 he'
+      · obtain ⟨x, y⟩ := ifEnd_pendT hp2 hbody.1.res he'
         exact ⟨x, y⟩
       · rw [hp2.isIf] at hf; cases hf
-  | .elif c b rest, env, nc, bs, bs', s, s', E0, ctx, stk, hi, hs, hp, h => by
+  | .elif c b rest, env, nc, bs, bs', s, s', E0, ctx, stk, hi, hs, hp, hres, h => by
     unfold execIfRest at h
     obtain ⟨bs1, s1, h1, ha⟩ := bind_ok.mp h
     obtain ⟨bs2, s2, h2, h3⟩ := bind_ok.mp ha
     clear h ha
     obtain ⟨ctx0, rest0, ctx', bv', hs0, _, he, rfl⟩ := bElif_ok h1
     rw [hs] at hs0; cases hs0
-    obtain ⟨bb, hnat, hr1, htrue, hfalse⟩ := ifElif_betO hi hp he
-    obtain ⟨hst, hdom⟩ := execBlock_struct b env _ bs2 s1 s2 h2
-    simp only [nIfRest, hnat]
+    obtain ⟨bb, hnat, hr1, htrue, hfalse, hres1⟩ := ifElif_betO hi hp hres he
+    obtain ⟨⟨hst, hdom⟩, hres2⟩ := execBlock_struct b env _ bs2 s1 s2 h2
+    simp only [nIfRest, hnat, ok_bind]
     cases bb with
     | true =>
       obtain ⟨hl1, cif, cog, ccv, ic, hic, vic⟩ := htrue rfl
       have hbody := execBlock_ref b env nc _ bs2 s1 s2 E0 hi hl1 hr1 h2
-      show Post (nBlock nc b E0) _ _
+      show Post r (nBlock nc b E0) _ _
       cases hN : nBlock nc b E0 with
       | error x =>
         rw [hN] at hbody
-        cases x with
-        | name => exact hbody.elim
-        | uncapped => trivial
+        exact hbody
       | ok ET =>
         rw [hN] at hbody
-        have hp2 : PendT ET ctx' bs2.bv.vals := ⟨cif, cog, Or.inr ⟨ic, hic, vic⟩, Or.inl ⟨ccv, hbody.2⟩⟩
-        obtain ⟨x, y⟩ := execIfRest_taken rest env nc bs2 bs' s2 s' ET ctx' stk hi hst hp2 h3
+        have hp2 : PendT r ET ctx' bs2.bv.vals := ⟨cif, cog, Or.inr ⟨ic, hic, vic⟩, Or.inl ⟨ccv, hbody.2⟩⟩
+        obtain ⟨x, y⟩ := execIfRest_taken rest env nc bs2 bs' s2 s' ET ctx' stk hi hst hp2 hbody.1.res h3
         exact ⟨x, y⟩
     | false =>
-      have hp2 : PendO E0 ctx' bs2.bv.vals := (hfalse rfl).mono' hdom
-      exact execIfRest_open rest env nc bs2 bs' s2 s' E0 ctx' stk hi hst hp2 h3
+      have hp2 : PendO r E0 ctx' bs2.bv.vals := (hfalse rfl).mono' hdom
+      exact execIfRest_open rest env nc bs2 bs' s2 s' E0 ctx' stk hi hst hp2 (hres2.trans hres1) h3
 end
 
 end Pysnark
